@@ -46,8 +46,9 @@ Seqs2(S1, S2) == { <<a, b>> : a \in S1, b \in S2 }
 (* CF: control flow.  Loops are driven by a counter that is built up as    *)
 (* the first statement of the body, so every program terminates.           *)
 CFAtoms == { SayS("a"), SayS("b"), SBreak(0), SContinue(0) }
-CFConds(c) == { Eq(Var(c), N(1)), Lt(Var(c), N(2)), Lit(Bool(TRUE)), Lit(Null), S(""), Lit(Myst), N(0), Var("arr") }
-CFCondsQ(c) == { Eq(Var(c), N(1)), Lit(Bool(TRUE)), Lit(Null), S("") }
+CFConds(c) == { Eq(Var(c), N(1)), Lt(Var(c), N(2)), Lit(Bool(TRUE)), Lit(Null), S(""), Lit(Myst), N(0), Var("arr"),
+                Lit(Tiny(1, TinyText)), Lit(Tiny(-1, "0.001")), Lit(NaN), Lit(NZero) }
+CFCondsQ(c) == { Eq(Var(c), N(1)), Lit(Bool(TRUE)), Lit(Null), S(""), Lit(Tiny(1, TinyText)) }
 
 CFIf(c, B1, B2) == { SIf(0, cd, t, TRUE, e) : cd \in c, t \in B1, e \in B2 } \cup { SIf(0, cd, t, FALSE, <<>>) : cd \in c, t \in B1 }
 CFLoop(ctr, bound, B) ==
@@ -152,7 +153,11 @@ PRPrograms(z) == {
 -----------------------------------------------------------------------------
 (* AR: operation sequences over arrays that were copied from one another *)
 GDef == SFunc(0, "grow", <<"a">>, <<SRock(0, Var("a"), <<S("g")>>), SAssign(0, Idx(Var("a"), S("fk")), "none", <<N(1)>>), Ret(Var("a"))>>)
+(* a function whose parameter has the caller's variable's name and which changes its copy through the pronoun *)
+PDef == SFunc(0, "ff", <<"x">>, <<SRock(0, Var("x"), <<S("n")>>), SRock(0, Pro, <<S("p")>>), SAssign(0, Idx(Pro, N(0)), "none", <<N(7)>>),
+                                  SAssign(0, Idx(Pro, S("pk")), "none", <<N(8)>>), Ret(Var("x"))>>)
 AROps == {
+  Put(Call("ff", <<Var("x")>>), "y"),
   SAssign(0, Idx(Var("x"), N(0)), "none", <<N(1)>>),
   SAssign(0, Idx(Var("x"), N(2)), "none", <<S("s")>>),
   SAssign(0, Idx(Var("x"), S("k")), "none", <<N(2)>>),
@@ -176,11 +181,11 @@ AROps == {
 }
 ARWrites == { o \in AROps : o.s # "say" }
 ARPrograms3(z) ==
-  LET W == ARWrites IN { << <<GDef>>, <<a, b, c, Say(Var("x")), Say(Var("y"))>> >> : a \in W, b \in W, c \in AROps }
+  LET W == ARWrites IN { << <<GDef>>, <<PDef>>, <<a, b, c, Say(Var("x")), Say(Var("y"))>> >> : a \in W, b \in W, c \in AROps }
 ARPrograms(z) ==
   LET W == ARWrites IN
   ARPrograms3(z)
-  \cup (IF Tier = "quick" THEN {} ELSE { << <<GDef>>, <<a, b, c, d, Say(Var("x")), Say(Var("y"))>> >> : a \in W, b \in W, c \in W, d \in AROps })
+  \cup (IF Tier = "quick" THEN {} ELSE { << <<GDef>>, <<PDef>>, <<a, b, c, d, Say(Var("x")), Say(Var("y"))>> >> : a \in W, b \in W, c \in W, d \in AROps })
 
 -----------------------------------------------------------------------------
 (* IO: say / listen interleavings x input texts x every writer budget x every failing read *)
